@@ -11,7 +11,8 @@ against `relocBy` along Basic's own address map (Lemmas/BasicBuilderIntern.lean)
                     list occupies `1 + n` cells
 * `"ab" + x`        real: `Put 0; Resolve 3; Add; EndExpression`,
                     data `[CharList 2, Char a, Char b, Symbol _, CharList 1, Char x]` — a symbol is followed by its text
-                    (observed only: evaluating the symbol hash in the kernel is out of reach)
+                    (these two are checked on the written-out programs `progCharList` / `progSymbol`: evaluating the
+                    lexer on a string literal / the symbol hash in the kernel is out of reach)
 So Basic's builder path differs from Simple's in kind, not in the cache decision: nothing is shared, nothing preallocated,
 constants have a footprint; for programs without char lists, byte lists and symbols the real program is the model
 builder's 0-based program itself (`basicRealProg_eq_of_single`).
@@ -55,11 +56,26 @@ theorem basic_real_nested :
       some ([(.put, some 0), (.put, some 1), (.apply, none), (.endExpression, none), (.putValue, none),
         (.put, some 2), (.add, none), (.endExpression, none)], [.expr 1, .num (.int 5), .num (.int 1)]) := by rfl
 
-/-- `"ab" + 1`: the char list occupies three cells, the number sits at address 3 -/
+/-- the program the model builder makes of `"ab" + 1` (constants `"ab"`, `1`; evaluating the lexer on the string literal in
+the kernel is out of reach, so the program is written out): the char list occupies three cells, the number sits at 3 -/
+def progCharList : Prog Float :=
+  { instrs := #[(.put, some 0), (.put, some 1), (.add, none), (.endExpression, none)], jumps := #[0],
+    consts := #[.chars [97, 98], .num (.int 1)] }
+
 theorem basic_real_footprints :
-    (builtProg "\"ab\" + 1").map (fun P =>
-        ((basicRealProg (fun _ => []) P).instrs.toList, (basicRealProg (fun _ => []) P).consts.toList)) =
-      some ([(.put, some 0), (.put, some 3), (.add, none), (.endExpression, none)],
+    ((basicRealProg (fun _ => []) progCharList).instrs.toList, (basicRealProg (fun _ => []) progCharList).consts.toList) =
+      ([(.put, some 0), (.put, some 3), (.add, none), (.endExpression, none)],
         [.chars [97, 98], .char 97, .char 98, .num (.int 1)]) := by rfl
+
+/-- a symbol constant is followed by its text: `x` (text `[120]`) after `"ab"` sits at 3 and the block has six cells -/
+def progSymbol : Prog Float :=
+  { instrs := #[(.put, some 0), (.resolve, some 1), (.add, none), (.endExpression, none)], jumps := #[0],
+    consts := #[.chars [97, 98], .sym 7] }
+
+theorem basic_real_symbol_text :
+    ((basicRealProg (fun k => if k = 1 then [120] else []) progSymbol).instrs.toList,
+      (basicRealProg (fun k => if k = 1 then [120] else []) progSymbol).consts.toList) =
+      ([(.put, some 0), (.resolve, some 3), (.add, none), (.endExpression, none)],
+        [.chars [97, 98], .char 97, .char 98, .sym 7, .chars [120], .char 120]) := by rfl
 
 end Garnish.Props.C01TextStore
